@@ -101,7 +101,135 @@ def m2_ancestor_step(S):
     S.witness(ctx, ob, "reach_skip_branch", pre, T.or_(*took_skip_any) if took_skip_any else False)
 
 
-OBLIGATIONS = [m1_skip_height, m2_ancestor_step]
+def m3_header_view_codec(S):
+    """HeaderIndexView spills to the backend as bytes: `from_slice_should_be_ok` reads every field from exactly the byte range
+    `to_vec` wrote it to (layout symmetry of the private codec), incl. the optional skip hash (88 vs 120 bytes)"""
+    ob = "C17.m3"
+    from mir2smt.exec import SliceV, ListV, mk_result
+    # ---- encoder: order and widths of the writes
+    ctx = S.ctx()
+    ctx.uninterpreted_unknown_calls = True
+    writes = []
+
+    def nm(ex, v):
+        v = deref(ex, v)
+        if isinstance(v, IntV):
+            return T.to_smt(v.t)
+        return getattr(v, "name", None) or type(v).__name__
+
+    def extend(ex, callee, args, dty):
+        a = deref(ex, args[1])
+        writes.append((ex_path_id(ex), getattr(a, "name", "?"), getattr(a, "ty", "")))
+        return UNIT
+
+    def ex_path_id(ex):
+        return id(ex)
+
+    ctx.env = [
+        (E.rx(r"Vec::<u8>::new$"), lambda ex, c, a, d: OpaqueV("out", d)),
+        (E.rx(r"impl u64>::to_le_bytes$"), lambda ex, c, a, d: OpaqueV("le8(" + T.to_smt(as_int(a[0])) + ")", "8")),
+        (E.rx(r"impl \[u8; 8\]>::as_slice$"), lambda ex, c, a, d: deref(ex, a[0])),
+        (E.rx(r"Byte32 as .*Entity>::as_slice$"), lambda ex, c, a, d: OpaqueV("b32(" + nm(ex, a[0]) + ")", "32")),
+        (E.rx(r"U256>::to_le_bytes$"), lambda ex, c, a, d: OpaqueV("le32(" + nm(ex, a[0]) + ")", "32")),
+        (E.rx(r"impl \[u8; 32\]>::as_slice$"), lambda ex, c, a, d: deref(ex, a[0])),
+        (E.rx(r"Vec::<u8>::extend_from_slice$"), extend),
+    ]
+    hv = OpaqueV("hv", "HeaderIndexView")
+    enc = S.fn("HeaderIndexView::to_vec")
+    ps = S.run(ctx, enc, [ctx.ref_to(hv)])
+    S.prove(ctx, ob, "to_vec_no_panic", [], T.not_(cond_of(panics(ps))))
+    # group writes per path: two paths (skip hash present / absent)
+    by_path = {}
+    for pid, name, w in writes:
+        by_path.setdefault(pid, []).append((name, int(w)))
+    layouts = set()
+    for pid, ws in by_path.items():
+        off = 0
+        lay = []
+        for name, w in ws:
+            lay.append((name, off, off + w))
+            off += w
+        layouts.add((tuple(lay), off))
+    # field symbol names of hv: number .1, epoch .2(.0), timestamp .3, parent_hash .4, total_difficulty .5, skip_hash .6
+    # ---- decoder: which range feeds which field
+    ctx2 = S.ctx()
+    ctx2.uninterpreted_unknown_calls = True
+    L = ctx2.int("len", "usize")
+    sl = SliceV("spill", 0, L.t)
+
+    def rng(v):
+        v = v if isinstance(v, SliceV) else None
+        return (v.off, T.add(v.off, v.len)) if v is not None else None
+
+    def from_le(ex, callee, args, dty):
+        a = deref(ex, args[0])
+        return ex.ctx.int("u64le_" + getattr(a, "name", "x"), "u64")
+
+    def try_into(ex, callee, args, dty):
+        a = deref(ex, args[0])
+        r = rng(a)
+        return mk_result(T.eq(a.len, 8), OpaqueV(f"r{r[0]}_{r[1]}", "[u8; 8]"), OpaqueV("tfe", "TryFromSliceError"), dty)
+
+    def b32(ex, callee, args, dty):
+        a = deref(ex, args[0])
+        r = rng(a)
+        if isinstance(a, SliceV):
+            if not ex.decide(T.eq(a.len, 32)):
+                from mir2smt.exec import Panic
+                raise Panic("from_slice_should_be_ok on a slice that is not 32 bytes")
+            return OpaqueV(f"b32_{a.buf}_{r[0]}_{r[1]}", dty)
+        return OpaqueV("b32_" + getattr(a, "name", "x"), dty)
+
+    def u256le(ex, callee, args, dty):
+        a = deref(ex, args[0])
+        r = rng(a)
+        return mk_result(T.eq(a.len, 32), OpaqueV(f"u256le_{r[0]}_{r[1]}", "U256"), OpaqueV("fue", "FixedUintError"), dty)
+
+    ctx2.env = [
+        (E.rx(r"FromSliceShouldBeOk<'_>>::from_slice_should_be_ok$"), b32),
+        (E.rx(r"Reader<'_>>::to_entity$"), lambda ex, c, a, d: deref(ex, a[0])),
+        (E.rx(r"as TryInto<\[u8; 8\]>>::try_into$"), try_into),
+        (E.rx(r"impl u64>::from_le_bytes$"), from_le),
+        (E.rx(r"U256>::from_little_endian$"), u256le),
+    ]
+    dec = S.fn("HeaderIndexView::from_slice_should_be_ok")
+    hashsl = SliceV("hashbuf", 0, 32)
+    ps2 = S.run(ctx2, dec, [hashsl, sl])
+    pre_len = [T.or_(T.eq(L.t, 88), T.eq(L.t, 120))]
+    S.prove(ctx2, ob, "decode_no_panic_on_88_or_120_bytes", pre_len, T.not_(cond_of(panics(ps2))))
+    expected = {1: ("u64le_r0_8", None), 3: ("u64le_r16_24", None), 4: ("b32_spill_24_56", None), 5: ("u256le_56_88", None)}
+    for k, p in enumerate(returns(ps2)):
+        v = p.value
+        fs = v.fields
+        got = {i: (getattr(fs[i], "name", None) or T.to_smt(as_int(fs[i]) if not isinstance(fs[i], (OpaqueV, EnumV)) else 0)) for i in (1, 3, 4, 5)}
+        okflow = got[1] == "u64le_r0_8" and got[3] == "u64le_r16_24" and got[4] == "b32_spill_24_56" and got[5] == "u256le_56_88"
+        ep = T.to_smt(as_int(fs[2]))
+        okflow = okflow and "u64le_r8_16" in ep and "u64le_r0_8" not in ep and "u64le_r16_24" not in ep
+        skip = fs[6]
+        if isinstance(skip, EnumV) and skip.disc == 1:
+            okskip = getattr(skip.payload(1)[0], "name", "") == "b32_spill_88_120"
+            S.prove(ctx2, ob, f"path{k}_skip_hash_read_from_bytes_88_120_only_when_len_120", [p.cond()], T.and_(bool(okskip), T.eq(L.t, 120)))
+        else:
+            S.prove(ctx2, ob, f"path{k}_no_skip_hash_when_len_is_not_120", [p.cond()], T.ne(L.t, 120))
+        S.prove(ctx2, ob, f"path{k}_fields_read_from_their_own_ranges", [p.cond()], bool(okflow))
+    # encoder layout equals the ranges the decoder reads
+    want88 = (("le8(hv.1)", 0, 8), ("le8", 8, 16), ("le8(hv.3)", 16, 24), ("b32(hv.4)", 24, 56), ("le32(hv.5)", 56, 88))
+    layouts = {(lay, tot) for (lay, tot) in layouts if tot in (88, 120) or True}
+    def lay_ok(lay, total):
+        if total not in (88, 120) or len(lay) not in (5, 6):
+            return False
+        for (name, a, b), (wn, wa, wb) in zip(lay, want88):
+            if (a, b) != (wa, wb) or not name.startswith(wn.split("(")[0]) or (("hv." in wn) and wn != name):
+                return False
+        if "hv.2" not in lay[1][0]:
+            return False
+        if total == 120:
+            return lay[5][1:] == (88, 120) and lay[5][0].startswith("b32(") and "hv.6" in lay[5][0]
+        return len(lay) == 5
+    S.prove(ctx, ob, "to_vec_writes_fields_at_the_offsets_the_decoder_reads", [], bool(len(layouts) == 2 and all(lay_ok(l, t) for l, t in layouts)))
+
+
+OBLIGATIONS = [m1_skip_height, m2_ancestor_step, m3_header_view_codec]
 
 ENGINE = "M"
 LEVEL = "other"
